@@ -21,7 +21,7 @@ func (g *soupGen) pick(l []string, label string) string {
 }
 
 var soupInts = []int64{0, 1, 2, 3, 5, 7, 8, 63, 64, 255, -1, -2, -7, 9223372036854775807, -9223372036854775808, 4611686018427387904, 9007199254740993}
-var soupFloats = []string{"0.5", "1.5", "2.0", "0.25", "3.75", "1e3", "0.1", "9007199254740992.0", "1e300", "0.0"}
+var soupFloats = []string{"0.5", "1.5", "2.0", "0.25", "3.75", "1e3", "0.1", "9007199254740992.0", "9223372036854775808.0", "9223372036854775807.0", "1e300", "0.0"}
 var soupStrs = []string{"", "a", "ab", "b", "é", "abc"}
 
 func (g *soupGen) leaf(typ string) *gen.Node {
@@ -713,7 +713,7 @@ func (g *cfGen) loop(depth int) []*gen.Node {
 			case 5:
 				exit = gen.Builtin("error", gen.Str("stop"), v.Clone())
 			default:
-				exit = gen.Println(gen.Str(tag+" hit"))
+				exit = gen.Println(gen.Str(tag + " hit"))
 			}
 			then := []*gen.Node{exit}
 			if g.n(3, "traceexit") == 0 {
